@@ -371,7 +371,7 @@ pub fn c15(tier: Tier) -> i32 {
     use crate::seq::run_history;
     use crate::sut::{Op, Val};
     let rep = Report::new("C15", tier);
-    rep.rule("all enabled histories up to the stated depth over {create node 1 with labels A / B / A+B and k in {1, 1.0, 'a', absent}; create node 2 (label A, k = 1 or absent); set k to 1 / 2 / 1.0; remove k; add label A / B; remove label A; delete node 1; Compact; drop+reopen}; for every position i in 0..=len the same history with CreateIndex(A,k) inserted at i; oracle: for every probe query {MATCH (n:A {k: c}), MATCH (n:A) WHERE n.k = c, the same with label B, with a following hop, and with IN} and every c in {1, 2, 1.0, 'a', true, null} the rows equal the rows of the history without any index; non-trivial = (history, position) pairs in which the index exists while a node with label A and property k exists");
+    rep.rule("all enabled histories up to the stated depth over {create node 1 with labels A / B / A+B and k in {1, 1.0, 'a', absent}; create node 2 (label A, k = 1 or absent); set k to 1 / 2 / 1.0; remove k; add label A / B; remove label A; delete node 1; Compact; drop+reopen}; for every position i in 0..=len the same history with CreateIndex(A,k) inserted at i; oracle: for every probe query {MATCH (n:A {k: c}), MATCH (n:A) WHERE n.k = c, the same with label B, with a following hop, and with IN} and every c in {1, 2, 1.0, 'a', true, null} the rows equal the rows of the history without any index; plus a volume family: for every initial size m in the stated range, CREATE INDEX, m nodes with distinct integer values, 70 updates of existing nodes (new smallest / largest keys, so that the index root splits during an UPDATE for some m), a second node for every stored value, then an equality lookup for EVERY stored value against the uid -> value map kept by the harness; non-trivial = (history, position) pairs in which the index exists while a node with label A and property k exists");
     let k1 = |v: Val| Op::SetNodeProp { e: 1, k: "k", v };
     let mk_node = |e: u64, labels: Vec<&'static str>, k: Option<Val>| {
         let mut ops = vec![Op::CreateNode { e, labels }, Op::SetNodeProp { e, k: "uid", v: Val::I(e as i64) }];
@@ -502,5 +502,82 @@ pub fn c15(tier: Tier) -> i32 {
         out
     });
     rep.set("probe_queries", json!(probes.len()));
+    // volume family: the index B-tree grows past one page while existing nodes are UPDATED (root split during an
+    // update), then every value gets a second node; every equality lookup must return exactly the nodes that hold the value
+    {
+        let sizes: Vec<i64> = if tier == Tier::Thorough { (280..=360).step_by(2).collect() } else { (300..=345).step_by(5).collect() };
+        let results: Vec<(i64, Option<(String, String)>, u64)> = sizes
+            .par_iter()
+            .map(|&m| {
+                let db = QDb::new();
+                let p = Params::new();
+                let mut truth: BTreeMap<i64, i64> = BTreeMap::new(); // uid -> k
+                let run = || -> Result<(), String> {
+                    db.db().create_index("A", "k").map_err(|e| e.to_string())?;
+                    db.write(&format!("UNWIND range(0, {}) AS i CREATE (:A {{uid: i, k: i}})", m - 1), &p).map_err(|e| format!("{e:?}"))?;
+                    Ok(())
+                };
+                if let Err(e) = run() {
+                    return (m, Some(("volume:setup_failed".to_string(), e)), 0);
+                }
+                for i in 0..m {
+                    truth.insert(i, i);
+                }
+                // 70 updates of existing nodes: new keys 100000 + j (right end of the key space) and j - 100000 (left end)
+                for j in 0..70i64 {
+                    let newk = if j % 2 == 0 { 100_000 + j } else { j - 100_000 };
+                    if let Err(e) = db.write(&format!("MATCH (n:A {{uid: {j}}}) SET n.k = {newk}"), &p) {
+                        return (m, Some(("volume:update_failed".to_string(), format!("{e:?}"))), 0);
+                    }
+                    truth.insert(j, newk);
+                }
+                // a second node for every value that is stored now
+                let values: Vec<i64> = truth.values().copied().collect();
+                let list = values.iter().map(|v| v.to_string()).collect::<Vec<_>>().join(", ");
+                if let Err(e) = db.write(&format!("UNWIND [{list}] AS v CREATE (:A {{uid: 1000000 + v, k: v}})"), &p) {
+                    return (m, Some(("volume:duplicate_failed".to_string(), format!("{e:?}"))), 0);
+                }
+                for v in &values {
+                    truth.insert(1_000_000 + v, *v);
+                }
+                let mut lookups = 0u64;
+                for v in values.iter().chain([7_777_777i64].iter()) {
+                    lookups += 1;
+                    let q = format!("MATCH (n:A {{k: {v}}}) RETURN n.uid AS u");
+                    match db.read(&q, &p) {
+                        Ok((_, rows)) => {
+                            let mut got: Vec<i64> = rows.iter().filter_map(|r| if let CV::Int(u) = r[0] { Some(u) } else { None }).collect();
+                            got.sort();
+                            let mut want: Vec<i64> = truth.iter().filter(|(_, k)| *k == v).map(|(u, _)| *u).collect();
+                            want.sort();
+                            if got != want {
+                                let class = if got.len() < want.len() { "index_hides_rows" } else { "index_adds_rows" };
+                                return (m, Some((class.to_string(), format!("{q}: got uids {got:?}, the nodes holding the value are {want:?} (index grown to {} entries, 70 of them written by SET)", m + 70))), lookups);
+                            }
+                        }
+                        Err(e) => return (m, Some(("volume:lookup_failed".to_string(), format!("{q}: {e:?}"))), lookups),
+                    }
+                }
+                (m, None, lookups)
+            })
+            .collect();
+        let mut total = 0u64;
+        for (m, v, lookups) in results {
+            total += lookups;
+            rep.add_states(1);
+            rep.add_traces(1);
+            rep.add_transitions(lookups + 72);
+            rep.add_nontrivial(1);
+            match v {
+                None => rep.outcome("volume:same"),
+                Some((class, detail)) => {
+                    rep.outcome(&class);
+                    rep.violation(Violation { class, kinds: vec!["volume_family".to_string(), format!("initial_nodes={m}"), "cause:index_root_split_during_update".to_string()], replay: json!({"engine":"query","family":"volume","initial_nodes": m}), detail });
+                }
+            }
+        }
+        rep.set("volume_family", json!({"sizes": sizes, "lookups": total}));
+    }
     rep.finish()
 }
+
